@@ -358,6 +358,7 @@ type simNode struct {
 	lastHeight int64
 	startFails int
 	bootHeight     int64
+	sweepCrashAt   int
 	walPoisoned    bool
 	poisonIdx      int
 	noMarkerAtBoot bool // this incarnation started although its WAL lacked the marker of the previous height
@@ -606,6 +607,9 @@ func (n *simNode) start() {
 	n.dbs = map[string]*simdisk.CrashDB{}
 	n.failure, n.exited, n.crashed = "", "", nil
 	n.repairedAtBoot, n.noMarkerAtBoot = false, false
+	if n.sweepCrashAt > 0 && n.inc == 0 {
+		n.crashAt = n.sweepCrashAt
+	}
 	n.starting = true
 	n.alive = false
 	n.nd, n.cs, n.ticker, n.wal, n.pv = nil, nil, nil, nil, nil
